@@ -342,6 +342,18 @@ def oracle(case, ob) -> List[Tuple[str, str]]:
     return bad
 
 
+def index_observation(ob) -> Optional[str]:
+    """Not part of the demanded skeleton: patch indices in the manifest of a stub-made patch
+    vs. those of the patched real record.  Counted and replayable, never a violation."""
+    if ob["st"] != "ok" or ob["grafted"]["open"] != "ok" or not ob["sp"]["mf"]:
+        return None
+    a, b = ob["sp"]["mf"]["skel"], ob["grafted"]["skel"]
+    if _shape(a) == _shape(b) and a != b:
+        d = [(x[0], x[2], y[2]) for x, y in zip(a, b) if x != y][:3]
+        return f"manifest of the stub-made patch vs. patched real record, (path, index in manifest, creation patch): {d}"
+    return None
+
+
 def oracle_classes(case) -> List[str]:
     ob = exec_case(case)
     return sorted({c for c, _ in oracle(case, ob)})
@@ -659,14 +671,28 @@ def run(ctx: vlib.Ctx):
         stats["upd_with_exts"] += case["upd"][1] is not None
         for o in case["upd"][0]:
             kinds[o[0]] = kinds.get(o[0], 0) + 1
-        g = ob["grafted"]
-        if g["open"] == "ok" and ob["sp"]["mf"] and ob["sp"]["mf"]["skel"] != g["skel"] and _shape(ob["sp"]["mf"]["skel"]) == _shape(g["skel"]):
+        if index_observation(ob):
             stats["patch_index_differs_after_stub_patch"] += 1
         if ok >= 1 and len(case["rounds"]) >= 2 and len(ob["stub"]["skel"]) >= 2:
             nontrivial.add(vlib.signature(case))
     ctx.sample({"case": cases[1], "model_patch_on_stub": _un(model[1][4])[1][-1] if model[1][0] == "ok" else None})
     ctx.sample({"case": cases[len(fixed_cases())]})
     ctx.sample({"case": cases[-1]})
+
+    # ---- negative control: an update that copies stored data is *not* existence-based; through the
+    #      stub it transports placeholders, and the oracle must see the difference
+    neg = []
+    for _ in range(ctx.budget(8, 40)):
+        k = rng.sample(KEY_POOL, 3)
+        v = rng.choice([x for x in VALUES if x != PLACEHOLDER])
+        neg.append({"rounds": [[[["set", [k[0], k[1]], v]], None]] + ([[[["aset", [k[0]], k[2], v]], None]] if rng.random() < 0.5 else []),
+                    "upd": [[["copy", [k[0], k[1]], [k[2]]]], None]})
+    nres = vlib.pmap(w_exec, neg, chunksize=1)
+    neg_seen = sum(1 for c, ob in zip(neg, nres)
+                   if ob["st"] == "ok" and any(cls == "different-result" for cls, _ in oracle(c, ob)))
+    cov["negative_control"] = {"copy_updates_run": len(neg), "difference_seen_by_oracle": neg_seen}
+    if neg_seen == 0:
+        ctx.notes.append("negative control: no copy-through-stub update differed from the direct one (the oracle may be insensitive)")
 
     # ---- oracle hits: a few per class, shrink in parallel, report distinct minimal ones
     by_cls: Dict[str, List[int]] = {}
@@ -752,6 +778,10 @@ def replay(rep) -> int:
         print("replay names a proof obligation or correspondence; re-run the check itself")
         return 1
     ob = exec_case(rep["case"])
+    if rep.get("class") == "observation-patch-index":
+        t = index_observation(ob)
+        print("observed:" if t else "not observed", t or "")
+        return 1 if t else 0
     found = oracle(rep["case"], ob)
     same = [t for c, t in found if c == rep.get("class")]
     if ob["st"] != "ok":
